@@ -6,7 +6,9 @@ import (
 	"strings"
 	"testing"
 
+	"github.com/lidofinance/dc4bc/client/services/node"
 	"github.com/lidofinance/dc4bc/client/types"
+	"github.com/lidofinance/dc4bc/fsm/types/requests"
 	"github.com/lidofinance/dc4bc/storage"
 
 	"dst/sim"
@@ -62,10 +64,41 @@ func runC13Reinit(w *World, tier string, spec *crashSpec, out *c13Run) (bool, in
 		c2.Ops = append(c2.Ops, op)
 		c2.L.Actors = append(c2.L.Actors, op)
 	}
+	// a 0.1.4 log: no self-confirmation deal messages, and key announcements without the public
+	// polynomial - the answer to the reinit operation is then the only source of it, so that
+	// answer's writes (round, retired operations) are crash points that matter
+	variant014 := w.Tape.Bool(1, 2, "log-0.1.4")
+	if variant014 {
+		var f []storage.Message
+		for _, m := range oldMsgs {
+			if m.Event == "event_dkg_deal_confirm_received" {
+				var req requests.DKGProposalDealConfirmationRequest
+				if json.Unmarshal(m.Data, &req) == nil && string(req.Deal) == "self-confirm" {
+					continue
+				}
+			}
+			if m.Event == "event_dkg_master_key_confirm_received" {
+				var req requests.DKGProposalMasterKeyConfirmationRequest
+				if json.Unmarshal(m.Data, &req) == nil {
+					req.PubPolyBz = nil
+					m.Data, _ = json.Marshal(req)
+				}
+			}
+			f = append(f, m)
+		}
+		oldMsgs = f
+		w.Stats.Fault("log-without-self-confirmations")
+	}
 	reDKG, err := types.GenerateReDKGMessage(oldMsgs, newKeys)
 	if err != nil {
 		w.Fail("C13", "reinit-file-generation-failed", err.Error())
 		return false, nil
+	}
+	if variant014 {
+		if reDKG, err = node.GetAdaptedReDKG(reDKG); err != nil {
+			w.Fail("C13", "reinit-adaptation-failed", err.Error())
+			return false, nil
+		}
 	}
 	reBz, _ := json.Marshal(reDKG)
 	vi := w.Tape.Choose(n, "victim")
